@@ -156,6 +156,7 @@ pub fn backup(t: &mut Toks) -> String {
         let mut dst_site0 = String::new();
         let mut third = None;
         let mut wal_bytes = 0u64;
+        let mut holder: Option<Connection> = None;
         match dest_kind {
             0 => {}
             1 => { std::fs::File::create(&dst).unwrap(); }
@@ -185,7 +186,12 @@ pub fn backup(t: &mut Toks) -> String {
                     let s = c.kit.dir.path().join(f);
                     if s.exists() { std::fs::copy(&s, dst_dir.join(f)).unwrap(); }
                 }
-                wal_bytes = std::fs::metadata(dst_dir.join("corrosion.db-wal")).map(|m| m.len()).unwrap_or(0);
+                // an idle connection of this (another) process keeps the database open, as a running
+                // agent or a monitoring tool would: without it the last connection to close checkpoints
+                // the -wal file away before the restore starts
+                let h = Connection::open(&dst).unwrap();
+                let _: i64 = h.query_row("SELECT count(*) FROM tests", [], |r| r.get(0)).unwrap();
+                holder = Some(h);
                 dst_site0 = site_state(&dst).0.iter().find(|(o, _)| *o == 0).map(|x| x.1.clone()).unwrap_or_default();
                 third = Some(c);
             }
@@ -243,6 +249,9 @@ pub fn backup(t: &mut Toks) -> String {
         let mut args = vec!["--config".to_string(), cfg.display().to_string(), "restore".to_string(), bak.display().to_string()];
         let keep_here = keep && (dest_kind == 2 || dest_kind == 4 || dest_kind == 5);
         if keep_here { args.push("--self-actor-id".into()); }
+        if dest_kind == 5 {
+            wal_bytes = std::fs::metadata(dst_dir.join("corrosion.db-wal")).map(|m| m.len()).unwrap_or(0);
+        }
         let o = Command::new(cli()).args(&args).output().unwrap();
         stop.store(true, Ordering::SeqCst);
         let mut rd = vec![];
@@ -264,6 +273,7 @@ pub fn backup(t: &mut Toks) -> String {
             fmt_state(&dst_state), if dst_changes == src_changes { 1 } else { 0 }, count(&dst, "__corro_members"),
             fnv(&[old_digest.clone()]), fnv(&[new_digest.clone()]), fnv(&[src_digest.clone()]), src_site0, dst_site0,
             dst_state2.0.iter().find(|(o, _)| *o == 0).map(|x| x.1.clone()).unwrap_or_default()));
+        drop(holder);
         for r in rd {
             // digests are long: print their hashes
             let m: Vec<String> = r.split(' ').map(|kv| {
